@@ -2,7 +2,7 @@ import CedarVerif.Driver.CodecSchema
 import CedarVerif.Cedar.Validation.Conformance
 /-
 Driver op of C11 (schema conformance):
-  (conf <schema> entity  (ent uid (attrs …) (anc …) (tags …)))   → ok | (violation <class>) | (panic)
+  (conf <schema> entity  (ent uid (attrs …) (anc …) (tags …)))   → ok | (violation <class>) | (panic) | (nonschematic)
   (conf <schema> request (req p a r (ctx …)))                    → ok | (violation <class>)
   (conf <schema> context (actx <action uid> (rec …)))            → ok | (violation <class>)
 Classes are those of harness/src/c11.rs (`ent_class`, `req_class`).
@@ -35,7 +35,10 @@ def handleConf (x : Sexp) : Option String :=
   match x with
   | .list [.atom "conf", s, .atom "entity", e] =>
     match decSchema s, decEntity e with
-    | some s, some (uid, d) => some (match checkEntity s uid d with
+    | some s, some (uid, d) =>
+      -- hypothesis of `C11.checkEntity_iff`, re-checked on every schema the harness sends
+      if !s.schematic then some "(nonschematic)" else
+      some (match checkEntity s uid d with
       | .ok () => "ok"
       | .error v => encEntityViolation v)
     | _, _ => some "(bad-op)"
